@@ -77,6 +77,18 @@ CALLBACKS = [
     dict(file="FnHelpers", src="publish.py", qual="_on_publish", name="pubOnPublish", state="List PyPubMsg", params=[],
          calls={"_do_publish": "doPublish"}),
 ]
+# methods whose effect on the client is a sequence of calls of other methods and attribute assignments: the translated function
+# takes the attributes it reads (and `now` for `time_func()`), and returns that sequence (Paho.Py.MEff) in execution order.  A
+# call listed under `calls` may change the attributes it `clobbers` ("*" = any): reading such an attribute afterwards is outside
+# the subset (reported, never guessed).  `try: self.f() except Exception: A else: B` becomes a branch on a Bool parameter.
+EFFECTS = [
+    dict(file="FnKeepalive", src="client.py", qual="Client._check_keepalive", name="checkKeepalive", params=[],
+         attrs=[("_keepalive", "Int"), ("_last_msg_out", "Int"), ("_last_msg_in", "Int"), ("_state", "Int"), ("_ping_t", "Int")],
+         none_tests={"_sock": "sock_open"}, clock="now",
+         calls={"_send_pingreq": dict(clobbers="*", raises="pingreq_raises"),
+                "_sock_close": dict(clobbers=["_sock"]),
+                "_do_on_disconnect": dict(clobbers="*", kwargs=["packet_from_broker", "v1_rc"])}),
+]
 EXC = {"ValueError": ".valueError", "TypeError": ".typeError", "AssertionError": ".assertionError", "IndexError": ".indexError", "MQTTException": ".mqttException", "RuntimeError": ".runtimeError"}
 RESERVED = {"bytes": "bytes_", "end": "end_", "from": "from_", "at": "at_", "open": "open_"}
 
@@ -216,7 +228,7 @@ class Tr:
             return f"({int(getattr(mod.MQTTErrorCode, e.attr))} : Int)", "Int"
         if isinstance(e, ast.Compare) and len(e.ops) == 1 and isinstance(e.ops[0], (ast.In, ast.NotIn)) \
                 and isinstance(e.comparators[0], ast.Tuple) and e.comparators[0].elts \
-                and all(isinstance(x, ast.Name) or (isinstance(x, ast.Constant) and isinstance(x.value, int)) for x in e.comparators[0].elts):
+                and all(isinstance(x, (ast.Name, ast.Attribute)) or (isinstance(x, ast.Constant) and isinstance(x.value, int)) for x in e.comparators[0].elts):
             a, ta = self.expr(e.left)
             if ta != "Int":
                 raise Missing("membership test on a non-int")
@@ -618,6 +630,154 @@ class CbTr(Tr):
         return "\n".join(L)
 
 
+class EffTr(Tr):
+    """methods translated to their sequence of effects (see EFFECTS)"""
+
+    def __init__(self, cfg, fn, consts=None):
+        super().__init__(cfg, fn, consts)
+        self.clobbered = set()
+        for a, t in cfg["attrs"]:
+            self.types["self." + a] = t
+
+    def is_self_attr(self, e, name=None):
+        return isinstance(e, ast.Attribute) and isinstance(e.value, ast.Name) and e.value.id == "self" and (name is None or e.attr == name)
+
+    def expr(self, e):
+        if isinstance(e, ast.Compare) and len(e.ops) == 1 and isinstance(e.ops[0], (ast.Is, ast.IsNot)) \
+                and isinstance(e.comparators[0], ast.Constant) and e.comparators[0].value is None and self.is_self_attr(e.left) \
+                and e.left.attr in self.cfg.get("none_tests", {}):
+            if e.left.attr in self.clobbered or "*" in self.clobbered:
+                raise Missing(f"self.{e.left.attr} tested after a call that may change it")
+            v = "self_" + self.cfg["none_tests"][e.left.attr]
+            return (v if isinstance(e.ops[0], ast.IsNot) else f"(!{v})"), "Bool"
+        if self.is_self_attr(e) and ("self." + e.attr) in self.types:
+            if e.attr in self.clobbered or "*" in self.clobbered:
+                raise Missing(f"self.{e.attr} read after a call or assignment that may change it")
+            return "self_" + e.attr.lstrip("_"), self.types["self." + e.attr]
+        if isinstance(e, ast.Attribute) and isinstance(e.value, ast.Name) and e.value.id not in ("self", "MQTTErrorCode") and e.value.id not in self.types:
+            # a member of a module-level enum class: its integer value (`.value` of a plain Enum)
+            import importlib
+            try:
+                mod = importlib.import_module("paho.mqtt." + self.cfg["src"][:-3])
+                m = getattr(getattr(mod, e.value.id), e.attr)
+                v = m.value if hasattr(m, "value") else m
+            except Exception:  # noqa: BLE001
+                raise Missing(f"cannot resolve {e.value.id}.{e.attr}")
+            if isinstance(v, bool) or not isinstance(v, int):
+                raise Missing(f"{e.value.id}.{e.attr} is not an integer constant")
+            n = f"{e.value.id}_{e.attr}"
+            self.consts[n] = int(v)
+            return f"c_{n}", "Int"
+        return super().expr(e)
+
+    def assigned_all(self, stmts):
+        names = set()
+        for s in stmts:
+            if isinstance(s, ast.Assign) and len(s.targets) == 1 and isinstance(s.targets[0], ast.Name):
+                names.add(s.targets[0].id)
+            elif isinstance(s, ast.If):
+                names |= self.assigned_all(s.body) & self.assigned_all(s.orelse)
+        return names
+
+    def call_eff(self, pad, v):
+        name = v.func.attr
+        c = self.cfg["calls"][name]
+        args = []
+        if v.args:
+            raise Missing(f"positional arguments in self.{name}()")
+        kw = {k.arg: k.value for k in v.keywords}
+        if sorted(kw) != sorted(c.get("kwargs", [])):
+            raise Missing(f"keyword arguments of self.{name}(): {sorted(kw)}")
+        for k in c.get("kwargs", []):
+            a, t = self.expr(kw[k])
+            if t == "Bool":
+                a = f"(if {a} then 1 else 0)"
+            elif t != "Int":
+                raise Missing(f"argument {k} of type {t}")
+            args.append(a)
+        if c["clobbers"] == "*":
+            self.clobbered.add("*")
+        else:
+            self.clobbered |= set(c["clobbers"])
+        return f'{pad}effs := effs ++ [Py.MEff.call "{name}" [{", ".join(args)}]]'
+
+    def is_call(self, v):
+        return isinstance(v, ast.Call) and self.is_self_attr(v.func) and v.func.attr in self.cfg["calls"]
+
+    def stmts(self, body, ind, ctl):
+        out = []
+        pad = "  " * ind
+        for s in body:
+            v = s.value if isinstance(s, ast.Expr) else None
+            if isinstance(s, ast.Return) and s.value is None:
+                out.append(f"{pad}return effs")
+            elif isinstance(s, ast.Assign) and len(s.targets) == 1 and isinstance(s.targets[0], ast.Name) and isinstance(s.value, ast.Call) \
+                    and isinstance(s.value.func, ast.Name) and s.value.func.id == "time_func" and not s.value.args:
+                if s.targets[0].id != self.cfg["clock"] or s.targets[0].id in self.types:
+                    raise Missing("time_func() read more than once / into another name")
+                self.types[s.targets[0].id] = "Int"          # the parameter
+            elif isinstance(s, ast.Assign) and len(s.targets) == 1 and self.is_self_attr(s.targets[0]):
+                a = s.targets[0].attr
+                val, t = self.expr(s.value)
+                if t != "Int":
+                    raise Missing(f"self.{a} assigned a {t}")
+                out.append(f'{pad}effs := effs ++ [Py.MEff.setInt "{a}" {val}]')
+                self.clobbered.add(a)
+            elif v is not None and self.is_call(v):
+                if self.cfg["calls"][v.func.attr].get("raises"):
+                    raise Missing(f"self.{v.func.attr}() outside try/except")
+                out.append(self.call_eff(pad, v))
+            elif isinstance(s, ast.Try) and len(s.body) == 1 and isinstance(s.body[0], ast.Expr) and self.is_call(s.body[0].value) \
+                    and len(s.handlers) == 1 and isinstance(s.handlers[0].type, ast.Name) and s.handlers[0].type.id == "Exception" \
+                    and s.handlers[0].name is None and not s.finalbody:
+                c = self.cfg["calls"][s.body[0].value.func.attr]
+                if not c.get("raises"):
+                    raise Missing("try around a call not declared as possibly raising")
+                out.append(self.call_eff(pad, s.body[0].value))
+                saved = set(self.clobbered)
+                out.append(f"{pad}if {c['raises']} then")
+                out += self.stmts(s.handlers[0].body, ind + 1, ctl) or [f"{pad}  pure ()"]
+                c1 = set(self.clobbered)
+                self.clobbered = set(saved)
+                out.append(f"{pad}else")
+                out += self.stmts(s.orelse, ind + 1, ctl) or [f"{pad}  pure ()"]
+                self.clobbered |= c1
+            elif isinstance(s, ast.If):
+                # a local assigned on every path through the `if` is declared before it (value 0 until then; a local assigned
+                # on some paths only stays undeclared, so that a later read is reported and never defaulted)
+                for n in sorted(self.assigned_all(s.body) & self.assigned_all(s.orelse)):
+                    if n not in self.types:
+                        self.types[n] = "Int"
+                        out.append(f"{pad}let mut {lname(n)} : Int := 0")
+                out.append(f"{pad}if {self.test(s.test)} then")
+                saved = set(self.clobbered)
+                out += self.stmts(s.body, ind + 1, ctl) or [f"{pad}  pure ()"]
+                c1 = set(self.clobbered)
+                self.clobbered = set(saved)
+                if s.orelse:
+                    out.append(f"{pad}else")
+                    out += self.stmts(s.orelse, ind + 1, ctl)
+                self.clobbered |= c1
+            elif isinstance(s, (ast.For, ast.While, ast.Return, ast.Try)):
+                raise Missing(f"statement {type(s).__name__} outside the subset")
+            else:
+                out += Tr.stmts(self, [s], ind, ctl)
+        return out
+
+    def translate_effects(self):
+        cfg, fn = self.cfg, self.fn
+        body = self.stmts(fn.body, 1, None)
+        ps = [f"(self_{a.lstrip('_')} : {t})" for a, t in cfg["attrs"]] + [f"(self_{v} : Bool)" for v in cfg.get("none_tests", {}).values()] \
+            + [f"({cfg['clock']} : Int)"] + [f"({c['raises']} : Bool)" for c in cfg["calls"].values() if c.get("raises")]
+        where = f"{cfg['src']} {cfg['qual']} (line {fn.lineno})"
+        L = [f"/-- {where}: the calls and attribute assignments it makes, in execution order -/",
+             f"def {cfg['name']} {' '.join(ps)} : Except Exc (List Py.MEff) := do",
+             "  let mut effs : List Py.MEff := []"]
+        L += body
+        L.append("  return effs")
+        return "\n".join(L)
+
+
 def translate_recloop(tr):
     """a method whose body is `[with self._x_mutex:] <straight statements>; for m in self.<table>.values(): <body>`"""
     cfg, fn = tr.cfg, tr.fn
@@ -702,14 +862,16 @@ def run(out):
     texts = {}
     consts = {}
     for cfg, straight in [(c, False) for c in FUNCS] + [(c, True) for c in STRAIGHT] + [(c, c.get("straight", False)) for c in RECLOOP] \
-            + [(c, True) for c in CALLBACKS]:
+            + [(c, True) for c in CALLBACKS] + [(c, True) for c in EFFECTS]:
         f = cfg["file"]
         texts.setdefault(f, [])
         try:
             tree = ast.parse(open(os.path.join(PKG, cfg["src"]), encoding="utf-8").read())
             fn = find_func(tree, cfg["qual"])
-            tr = (CbTr if "state" in cfg else Tr)(cfg, fn, consts.setdefault(f, {}))
-            if "state" in cfg:
+            tr = (CbTr if "state" in cfg else EffTr if "clock" in cfg else Tr)(cfg, fn, consts.setdefault(f, {}))
+            if "clock" in cfg:
+                texts[f].append(tr.translate_effects())
+            elif "state" in cfg:
                 texts[f].append(tr.translate_callback())
             elif "loop" in cfg:
                 texts[f].append(translate_recloop(tr))
